@@ -5,6 +5,7 @@ package rollout
 import (
 	"strconv"
 	"strings"
+	"time"
 
 	"github.com/openkruise/rollouts/api/v1beta1"
 	"github.com/openkruise/rollouts/pkg/util"
@@ -114,6 +115,12 @@ func c02CheckStep(prefix string, r *v1beta1.Rollout, pre, post *v1beta1.CommonSt
 		verifrt.Assert(postS == v1beta1.CanaryStepStateReady, prefix+".paused.successor")
 		lastFull := allowLastFull && pre.CurrentStepIndex == n && cur.Replicas != nil && cur.Replicas.StrVal == "100%"
 		verifrt.Assert(lastFull || cur.Pause.Duration != nil, prefix+".pauseNeedsApprovalOrDuration")
+		if !lastFull && cur.Pause.Duration != nil && pre.LastUpdateTime != nil {
+			// the configured duration is counted from the moment this step started to pause (the status' own
+			// lastUpdateTime), not from any older timestamp
+			waited := time.Now().Sub(pre.LastUpdateTime.Time)
+			verifrt.Assert(waited >= time.Duration(*cur.Pause.Duration)*time.Second, prefix+".pauseDurationElapsedSinceTheStepPaused")
+		}
 	case v1beta1.CanaryStepStateReady:
 		if post.CurrentStepIndex == pre.CurrentStepIndex {
 			verifrt.Assert(postS == v1beta1.CanaryStepStateCompleted && pre.CurrentStepIndex == n, prefix+".completedOnlyAfterLastStep")
